@@ -405,6 +405,44 @@ def _eval_outer(test: ast.AST, comp: ast.AST, vals: List[str]):
     return ev(test)
 
 
+def r09_10(ctx: Ctx) -> None:
+    """(a) a member that is not selected is REGISTERED as such, every time: Worker.register_filelike stores whatever it is given, None included -
+    the None of a later call overwrites the output an earlier `extract(T1)` on the same object registered.  (b) Worker._check decodes and discards
+    EVERY member it is handed, whatever its size: the call of decompress in its loop is unconditional (the first call on a folder builds the
+    folder's decoder with the packed size; a zero-length streamed member skipped there leaves that to a later member, which does not know it).
+    (c) the share of the step budget is a quotient by the number of folder tasks: where that number can be 0 (nothing to decode in this arm) the
+    division stands under `> 0`."""
+    rf = ctx.prog.func("py7zr", "Worker.register_filelike")
+    sets = [n for n in walk(rf.node) if isinstance(n, ast.Assign) and isinstance(n.targets[0], ast.Subscript) and norm(n.targets[0].value).endswith("target_filepath")]
+    ctx.floor("R09.10", len(sets), 1, "store in register_filelike")
+    for n in sets:
+        ctx.check(not q.facts_at(rf, n), "R09.10", rf, n, "register_filelike stores every registration, None included",
+                  f"`{norm(n)}` is conditional: a registration of None is dropped, so the output that an earlier extract(T1) registered for a member stays in force - a second extract(T2) on the "
+                  "same object delivers the members of T1 again (into the first call's writer, or Bad7zFile for another destination)", construct="conditional registration")
+    ck = ctx.prog.func("py7zr", "Worker._check")
+    for c in [c for c in q.calls(ck) if attr_tail(c) == "decompress"]:
+        lps = q.enclosing_loops(ck, c)
+        conds = q.facts_at(ck, c)
+        skips = [x for lp in lps for st in lp.body for x in ast.walk(st) if isinstance(x, (ast.Continue, ast.Break))]
+        ctx.check(bool(lps) and not conds and not skips, "R09.10", ck, c, "_check decodes every member it is handed",
+                  "Worker._check passes over some of the members it is handed (a `continue`, or a condition around the decode): a zero-length streamed member at the start of a solid folder "
+                  "is skipped, the folder's decoder is then built by a later member without the packed size, and selecting that member raises TypeError", construct="_check skips members")
+    ex = ctx.prog.func("py7zr", "Worker.extract")
+    n = 0
+    for d in [x for x in walk(ex.node) if isinstance(x, ast.BinOp) and isinstance(x.op, (ast.FloorDiv, ast.Div, ast.Mod))]:
+        den = q.expand_locals(ex, d.right)
+        if not any(isinstance(x, ast.Call) and dotted(x.func) in ("len", "min") for x in ast.walk(den)):
+            continue
+        n += 1
+        names = {x.id for x in ast.walk(d.right) if isinstance(x, ast.Name)}
+        pos = any(pol and isinstance(cd, ast.Compare) and isinstance(cd.left, ast.Name) and cd.left.id in names and isinstance(cd.ops[0], ast.Gt) and isinstance(cd.comparators[0], ast.Constant)
+                  and cd.comparators[0].value == 0 for cd, pol in q.facts_at(ex, d))
+        ctx.check(pos, "R09.10", ex, d, "a division by the number of folder tasks stands under `> 0`",
+                  f"`{norm(d)[:70]}`: the divisor is 0 when no folder has to be decoded in this arm (a selection of directories, stream-less empty files, absent names or nothing from a "
+                  "multi-folder archive opened by name): ZeroDivisionError, while the same selection through a file object succeeds", construct="division by the task count")
+    ctx.floor("R09.10", n, 1, "divisions by a task count in Worker.extract")
+
+
 def r09_5(ctx: Ctx) -> None:
     f = shared.szf(ctx, "_extract")
     apps = [c for c in q.calls(f) if attr_tail(c) == "append" and norm(c.func.value) == "target_dirs"]
@@ -505,6 +543,7 @@ def os_sep_text() -> str:
 
 
 def run(ctx: Ctx) -> None:
+    r09_10(ctx)
     r09_8(ctx)
     from . import c06 as _c06x
     _c06x.dispatch_forwards_skip(ctx, "R09.7")
